@@ -131,8 +131,29 @@ Section Engine.
              end
     end.
 
+  (** what a guard says about one candidate, taken alone *)
+  Inductive guard_says : Type := GAccept (b : bindings) | GReject | GFail.
+  Definition guard_on (g : action) (c : option bindings) : guard_says :=
+    let '((ob, _), err) := func_exec g c in
+    if err then GFail else match ob with Some b => GAccept b | None => GReject end.
+  Definition guard_says_eqb (x y : guard_says) : bool :=
+    match x, y with
+    | GAccept a, GAccept b => bindings_eqb a b
+    | GReject, GReject | GFail, GFail => true
+    | _, _ => false
+    end.
+  (** the outcome of the guard loop does not depend on the order of the
+      candidates: all candidates the guard does not reject say the same *)
+  Definition guard_order_free (g : action) (cs : list (option bindings)) : bool :=
+    match filter (fun r => negb (guard_says_eqb r GReject)) (map (guard_on g) cs) with
+    | [] => true
+    | r :: rest => forallb (guard_says_eqb r) rest
+    end.
+
   (** Branch.try.  The second component says that a guard saw several
-      candidates (the choice among them is documented as arbitrary). *)
+      candidates AND its verdict depends on the order in which it sees them
+      (the choice among several acceptable candidates is documented as
+      arbitrary; everything else is determined). *)
   Definition try_branch (b : branch) (bs : option bindings) (against : json)
     : try_res * bool :=
     let cands : res (list (option bindings)) :=
@@ -149,7 +170,11 @@ Section Engine.
     | Err => (TErr EMatch, false)
     | Fuel => (TErr EFuel, false)
     | Ok cs =>
-        let ambiguous := match br_guard b, cs with Some _, _ :: _ :: _ => true | _, _ => false end in
+        let ambiguous :=
+          match br_guard b, cs with
+          | Some g, _ :: _ :: _ => negb (guard_order_free g cs)
+          | _, _ => false
+          end in
         let chosen : option (option bindings) :=
           match br_guard b with
           | None =>
